@@ -19,7 +19,7 @@ NA = {
 
 # property -> (technique, level text, level note, design ref)
 T = {
- "C01": ("abstract interpretation of riscv.init and every effects closure over go/ssa (known-bits + bit-dependence, decision-replay path exploration), template rules F0-F11, exact check of immediate/register-field decoding against the ISA formats, canonical-form comparison of every entry's effect terms with a reference semantics table (C01.sem), concrete walk with Go integer wrap-around of the PC-relative address helper on boundary immediates (C01.pcrel)",
+ "C01": ("abstract interpretation of riscv.init and every effects closure over go/ssa (known-bits + bit-dependence, decision-replay path exploration), template rules F0-F11, exact check of immediate/register-field decoding against the ISA formats, canonical-form comparison of every entry's effect terms with a reference semantics table (C01.sem), concrete walk with Go integer wrap-around of the PC-relative address helper on boundary immediates (C01.pcrel); every path without x0 operands compared, paths that assume an immediate value against the definition specialised to it",
          "structural necessary conditions of correct lifting decided for all 160 table entries on all abstract paths: closures do not panic, every decoded operand bit influences the effects, access widths match metadata, operand roles (rs1 address / rs2 value / rd target / CSR bits), x0 guarded, XLEN widths, sign extension of immediates and of W results, operand order of non-commutative operations, every RV64 W-form entry agrees with its RV32 twin up to operators whose low bits depend only on low bits (F11); immediate formats I/S/B/U/J and register fields are verified bit-exactly; the lifted effect terms of all 160 entries equal, in a canonical form, the instruction definitions of the ISA manual written in the same vocabulary (operator, operand roles, comparison polarity, targets, widths, sign extension, jalr bit 0, mulh*/AMO selection); the helper adding a signed 32-bit immediate to an address is exact for 0, +-1, +-2^11, MaxInt32 and MinInt32. The meaning of the exprtools helpers themselves (C11) and CSR numbering are NOT decided; a helper replaced by its expansion would be reported although behaviour is unchanged",
          "trusts go/ssa, the abstract interpreter's transfer functions and that pkg/expr constructors mean what they document", "§4 C01"),
  "C02": ("SSA constant evaluation of the opcode tables and of instructionSet for the 8 configurations + exact cube algebra (sharp) against a reference encoding table; dominance rules for length check / 4-byte read; provenance of the returned parser's matcher (a cache is accepted only with a key walked to be injective over all configurations)",
@@ -52,10 +52,10 @@ T = {
  "C13": ("traversal rules on Possibilities (origins of returned alternatives, no sub-slicing, SetWidth to the node width), call-graph reachability",
          "every child is expanded, both branches of a conditional are returned at the conditional's width, no conditional constructor is reachable; value equality with some alternative follows by induction from these",
          "trusts go/ssa; SetWidth value preservation is C12", "§4 C13"),
- "C14": ("ghost-interval refinement of cutExpr values (linear forms + branch facts, path alternatives through phis), guard rules on Missing, concrete CFG walk of wholeInterval on 16 interval lists, byte-slice ownership, no-8-bit-scaling rule for byte counts",
+ "C14": ("ghost-interval refinement of cutExpr values (linear forms + branch facts, path alternatives through phis), guard rules on Missing, concrete CFG walk of wholeInterval on 16 interval lists, byte-slice ownership, no-8-bit-scaling rule for byte counts, per-path walk of cutExpr.expr over concrete (begin, end, stored width)",
          "every piece put into / taken out of the interval tree covers exactly the address interval it stands for, shifts are (piece.low-addr)*8, cutBegin/cutEnd/expr keep/shift what they document, gaps are emitted under their comparisons, byte offsets are widened before being turned into bit counts; full history semantics (tree library, overlapping sequences) is not decided",
          "trusts go/ssa and the interval tree library (Overlaps sorted, Add/Put/Remove)", "§4 C14"),
- "C15": ("byte-slice ownership analysis with parameter and struct-result summaries, set-algebra truth tables, compaction idiom, memmove-direction rule for in-place shifts, guard rules",
+ "C15": ("byte-slice ownership analysis with parameter and struct-result summaries, set-algebra truth tables, compaction idiom, memmove-direction rule for in-place shifts, guard rules, whole-list normalisation after a write (deep call sites of dedupBlocks)",
          "no borrowed byte slice is written or retained in mutable blocks, Missing/Blocks are the documented set terms, overlapping blocks rejected, reads return copies under a covering block, the insertion slot is opened by an overlap-safe shift before it is filled",
          "trusts go/ssa; field-based alias abstraction", "§4 C15"),
  "C16": ("set-algebra truth tables (incl. the two range sets inside Load, found through call chains), only-methods-on-base rule (also through helper parameters), concrete walk of the read-failure scenarios, shift/OR/sort patterns; the intersection/difference helpers under the set algebra walked for every ordering of an interval against lists of up to 3 (pieces and consumed count) plus sweep structure of their drivers",
@@ -73,16 +73,16 @@ T = {
  "C20": ("decision tables by CFG walk over the ELF type enum (5 values); MachineCode walked over a one-section file for the 16 section-attribute combinations and Memory over a one-segment file for 7 (loadable, file size, memory size) combinations; deep-site provenance / guard rules for the blocks built by Memory() and MachineCode(); concrete interprocedural walks of newMemory (10 block lists), Block.Address (7 addresses) and Memory.Address (28 addresses over three blocks, sort.Search followed) on a concrete block list; error propagation",
          "accepts exactly EXEC and DYN, keeps exactly non-empty address-bearing executable PROGBITS, segments become (Vaddr, file bytes + zero fill to Memsz), sections (Addr, Data), overlap (and only overlap) rejected, lookups return the bytes from the address to the end of the containing block or nothing; debug/elf itself is trusted",
          "trusts go/ssa and debug/elf", "§4 C20"),
- "C21": ("deep-site loop-variable and dataflow rules from parser.Parse to the platform decoder and newInstruction (through whatever helpers), freshness of every appended instruction (no data flow from an element of an instruction list), error propagation",
+ "C21": ("deep-site loop-variable and dataflow rules from parser.Parse to the platform decoder and newInstruction (through whatever helpers), freshness of every appended instruction (no data flow from an element of an instruction list), no comparator by subtraction where the package sorts, error propagation",
          "the walk starts at Begin(), advances by Len() of the parsed instruction until End(), same addr/bytes parsed and stored, Bytes = bytes[:ByteLen], Effects = ConstFold of the lifted effects only, decode/validate errors abort, no instruction of the result is derived from another one",
          "trusts go/ssa", "§4 C21"),
- "C22": ("command-table discipline (argument count/type agreement with the parsers), nil-function-field rule, user-input taint for constant indexing, line-index taint with raw-index parameter summaries, validator summaries and lower-bound (non-negative) reasoning, possibly-nil pointer fields, error-continues-loop rule",
+ "C22": ("command-table discipline (argument count/type agreement with the parsers), nil-function-field rule, user-input taint for constant indexing, line-index taint with raw-index parameter summaries, validator summaries and lower-bound (non-negative) reasoning, possibly-nil pointer fields, error-continues-loop rule; concrete walk of UI.parseCommand over (number of words, number of argument parsers, optional parser) with the word list's length tracked through reslices",
          "the crash paths that are visible in the shape of the code are decided for every command and every input-handling function; absence of every run-time panic (arithmetic, library) is NOT decided",
          "trusts go/ssa; sanitiser idioms enumerated in DESIGN §3 E10", "§4 C22"),
  "C23": ("post-dominance of re-rendering over successful moves, derived-state must-pass rule (fields computed from block order are recomputed on every path from the success edge of a block move), rendering loop patterns",
          "after a successful move the listing is re-derived, after a rejected one it is untouched; rendering details of lines are not decided",
          "trusts go/ssa", "§4 C23"),
- "C24": ("line-index taint in Print/Format methods (granted height) with upper and lower bounds, concrete interprocedural walk of the two Print methods with window arithmetic over every (lines<=7, cursor, granted height) state, loop-budget rule in distributeLines, error-before-print dominance, sibling agreement lines()/Print of the register view",
+ "C24": ("line-index taint in Print/Format methods (granted height) with upper and lower bounds, concrete interprocedural walk of the two Print methods with window arithmetic over every (lines<=7 incl. none, cursor, granted height) state counting the newlines of the text printed, loop-budget rule in distributeLines, error-before-print dominance, sibling agreement lines()/Print of the register view",
          "indices bounded by slice length and not negative, the listing and memory views never index outside their lines nor print more lines than granted in any walked state, the budget decreases with every line handed out, too few lines is an error before printing, the register view prints what it counts; exact line counts for all states are not decided",
          "trusts go/ssa", "§4 C24"),
  "C25": ("abstract interpretation of instruction.String() per table entry: dependence set of the text (exact-copy bit tracking and structural text signatures decide when path conditions matter) vs dependence set of the effects template",
@@ -100,10 +100,10 @@ T = {
  "C30": ("concrete CFG walk with literal strings: parseAddr on 19 sample arguments, readValue on 11 typed lines (slicing/indexing/len/comparison/ranging evaluated on the literals, out-of-range access recorded as a crash); dataflow rules for sign and byte order",
          "no sample argument crashes; every notation reaches ParseUint with the right base and exactly the digits behind its prefix (a lone 0 is decimal); empty lines and underscores are answered with an error before SetString, every other line reaches SetString(line, 0) unchanged; negative via Sub(0,|n|) folded. The numeric value of strconv/big parsing is trusted",
          "trusts go/ssa, strconv and math/big", "§4 C30"),
- "C31": ("concrete interprocedural walk of Cursor.Set over the 13 orderings of (v, 0, max) (stores v and returns nil exactly for 0 <= v < max), line-index taint of the navigation commands, concrete CFG walk of the find search for 1-5 lines x every cursor x every first match, error propagation",
+ "C31": ("concrete interprocedural walk of Cursor.Set over the 13 orderings of (v, 0, max) (stores v and returns nil exactly for 0 <= v < max), line-index taint of the navigation commands, concrete CFG walk of the find search for 1-5 lines x every cursor x every first match, statelessness of command actions (no write to a captured variable of the table builder), error propagation",
          "a failed command leaves the cursor unchanged, accepted offsets are exactly 0 <= v < max, navigation reaches the listing only with validated indices, find probes exactly the lines after the cursor in cyclic order, never the cursor line, and lands on the first match",
          "trusts go/ssa", "§4 C31"),
- "C32": ("compaction idiom on memoryLines, line-index taint in the memory view, concrete CFG walk of block2Lines for every block within [0,50)",
+ "C32": ("compaction idiom on memoryLines, line-index taint in the memory view, concrete CFG walk of block2Lines for every block within [0,50), concrete walk of the address command over a three-row view",
          "merged rows are dropped, rows are indexed below their number, rows are exactly one per overlapping 16-byte window holding window∩block, the address command searches the ranges; byte rendering is not decided",
          "trusts go/ssa", "§4 C32"),
 }
